@@ -1,4 +1,5 @@
 import PyTrie.Lemmas.FreeExec
+import PyTrie.Lemmas.FreePartial
 /-! # The tree-free executor (C01, C04, C06, C07 over a transcription with no tree)
 
 `Model/HexFree.lean` is `HexaryTrie.set` / `delete` / `get` as the code runs them: the trie is a root hash and a `prune`
@@ -63,5 +64,38 @@ theorem run_pruning_exact (H : Bytes → Bytes) (hlen : ∀ b, (H b).length = 32
   refine ⟨freeRun_is_world_run H hlen true ops T s h, ?_, ?_, reachOpsNC_complete _ _ true ops T s hnc⟩
   · intro x; rw [← htree]; exact hdb.counts x
   · intro x; rw [← htree]; exact hdb.keys x
+
+end PyTrie.Props.Free
+
+/-! ## The tree-free executor on incomplete databases (C07) -/
+namespace PyTrie.Props.Free
+open PyTrie PyTrie.Hex PyTrie.HexD PyTrie.HexW PyTrie.HexRaw PyTrie.HexFree
+
+/-- on ANY partial database (whatever is stored under a node's hash is its encoding) the tree-free `set` / `delete`
+    returns the exit state, root and exception of the tree-carrying executor — pruning on or off -/
+theorem op_partial (H : Bytes → Bytes) (hlen : ∀ b, (H b).length = 32) (T : TrieSt) (hc : Canon T.tree) (key : Bytes)
+    (val : Option Bytes) (s : OpSt) (hcache : s.store.cache = none)
+    (hroot : RootPartial H s.store.base T.root T.tree) (hst : PartialD H s.store.base T.tree) :
+    freeSetDel H (toFree T) key val s =
+      ((opSetDel (stdHashing H) (blankRoot H) T key val s).1,
+       match (opSetDel (stdHashing H) (blankRoot H) T key val s).2 with
+       | .ok T' => .ok (toFree T')
+       | .error e => .error e) :=
+  freeSetDel_partial H hlen T hc key val s hcache hroot hst
+
+/-- **a tree-free `set` / `delete` that raises `MissingTrieNode`**: the whole store (database, failure counter) and the
+    reference counts are what they were, no pending prune mark is left, the hash it names is absent and is the root's, a
+    hashed subtree on the key's path, or the sibling a delete must read to collapse a branch -/
+theorem op_missing_atomic (H : Bytes → Bytes) (hlen : ∀ b, (H b).length = 32) (T : TrieSt) (hc : Canon T.tree) (key : Bytes)
+    (val : Option Bytes) (s : OpSt) (hcache : s.store.cache = none)
+    (hroot : RootPartial H s.store.base T.root T.tree) (hst : PartialD H s.store.base T.tree)
+    (hrs : RefSound (stdHashing H) T.tree (nibs key))
+    (h root rk : Bytes) (pre : Option Path)
+    (he : (freeSetDel H (toFree T) key val s).2 = .error (.missingTrieNode h root rk pre)) :
+    (freeSetDel H (toFree T) key val s).1.store = s.store ∧ (freeSetDel H (toFree T) key val s).1.counts = s.counts ∧
+    (freeSetDel H (toFree T) key val s).1.pending = [] ∧
+    s.store.contains h = false ∧
+    (h = T.root ∨ OnPath (stdHashing H) T.tree (nibs key) h ∨ SiblingOnPath (stdHashing H) T.tree (nibs key) h) :=
+  freeSetDel_missing_atomic H hlen T hc key val s hcache hroot hst hrs h root rk pre he
 
 end PyTrie.Props.Free
